@@ -283,6 +283,8 @@ class Prober:
             st = fn()
         except Undecided as e:
             st = ("unknown", "nc-rewrite", f"outside the modelled fragment: {e}", None)
+        except ncalg.DomainError as e:
+            st = ("failed", "nc-domain", str(e), {"domain": "negative diagonal entry"})
         except Exception as e:  # noqa: BLE001  an exception escaping the real code is a failed obligation (no witness) ...
             tb = traceback.format_exc().strip().splitlines()
             where = next((l.strip() for l in reversed(tb) if "mici/" in l), tb[-1])
